@@ -89,6 +89,7 @@ pub fn base_spec(u: Arc<Universe>, steps: Vec<Step>) -> RunSpec {
         fault_window: 0,
         explore_orders: true,
         record_held: false,
+        sticky: Vec::new(),
     }
 }
 
